@@ -24,6 +24,7 @@ EXPLANATION = (
     "with the actual arguments must equal x + y*N_x + z*N_x*N_y in every extent case; the public formula itself is "
     "z*width*height + y*width + x; get_cell reads row `id` positionally and the id -> coordinates lookup reads row id "
     "of the 'pos' column.")
+EXPLANATION += (" Premise: C10's rule that the ids reported by the neighbourhood queries use the cell table's strides. The id polynomial is compared per extent case that the path condition admits.")
 ASSUMPTIONS = ["pandas positional indexing (iloc / default RangeIndex) semantics", "mixed-radix numbering is a bijection",
                "extents are 0 or >= 1 (quantifier)"]
 
